@@ -55,6 +55,11 @@ def run(ctx):
     nsqdmc.model_check(ctx)
     n = 16 if ctx.quick else 120
     corelib.run_modes(ctx, "C07", [("bytes", n + n // 2), ("core", n // 2)])
+    # the restart path: what comes back after a graceful shutdown carries the body and the timestamp it was published with
+    rruns = corelib.drive(ctx, "restart", 8 if ctx.quick else 80)
+    corelib.ledger(ctx, "C07", rruns)
+    ctx.cov["evaluations"] += sum(r.get("events", 0) for r in rruns)
+    ctx.notes["restart_runs"] = len(rruns)
     if not ctx.quick:
         corelib.repo_tests(ctx, "C07")
     pub_while_consuming(ctx)
